@@ -650,6 +650,56 @@ def normalise_loops(stmts: list[ast.stmt]) -> list[ast.stmt]:
     return rec(stmts)
 
 
+def merge_display_building(stmts: list[ast.stmt]) -> list[ast.stmt]:
+    """d = {}; d["a"] = x; d["b"] = y   ->   d = {"a": x, "b": y}          l = []; l.append(x); l.append(y)   ->   l = [x, y]
+    (the stores follow the empty display directly, keys are distinct constants, the values do not read the container)"""
+    out: list[ast.stmt] = []
+    i = 0
+    stmts = list(stmts)
+    while i < len(stmts):
+        s = stmts[i]
+        for fld in ("body", "orelse", "finalbody"):
+            b = getattr(s, fld, None)
+            if isinstance(b, list) and b and isinstance(b[0], ast.stmt) and not isinstance(s, (ast.FunctionDef, ast.AsyncFunctionDef, ast.ClassDef)):
+                setattr(s, fld, merge_display_building(b))
+        if isinstance(s, ast.Try):
+            for h in s.handlers:
+                h.body = merge_display_building(h.body)
+        name = s.targets[0].id if isinstance(s, ast.Assign) and len(s.targets) == 1 and isinstance(s.targets[0], ast.Name) else (
+            s.target.id if isinstance(s, ast.AnnAssign) and isinstance(s.target, ast.Name) and s.value is not None else None)
+        v = getattr(s, "value", None)
+        is_dict = isinstance(v, ast.Dict) and not v.keys or (isinstance(v, ast.Call) and u(v.func) == "dict" and not v.args and not v.keywords)
+        is_list = isinstance(v, ast.List) and not v.elts or (isinstance(v, ast.Call) and u(v.func) == "list" and not v.args and not v.keywords)
+        if name and (is_dict or is_list):
+            j = i + 1
+            keys, vals = [], []
+            while j < len(stmts):
+                x = stmts[j]
+                if is_dict and isinstance(x, ast.Assign) and len(x.targets) == 1 and isinstance(x.targets[0], ast.Subscript) and isinstance(x.targets[0].value, ast.Name) \
+                        and x.targets[0].value.id == name and isinstance(x.targets[0].slice, ast.Constant) and x.targets[0].slice.value not in [k.value for k in keys] \
+                        and not any(isinstance(n, ast.Name) and n.id == name for n in ast.walk(x.value)):
+                    keys.append(x.targets[0].slice)
+                    vals.append(x.value)
+                elif is_list and isinstance(x, ast.Expr) and isinstance(x.value, ast.Call) and isinstance(x.value.func, ast.Attribute) and x.value.func.attr == "append" \
+                        and isinstance(x.value.func.value, ast.Name) and x.value.func.value.id == name and len(x.value.args) == 1 and not x.value.keywords \
+                        and not any(isinstance(n, ast.Name) and n.id == name for n in ast.walk(x.value.args[0])):
+                    vals.append(x.value.args[0])
+                else:
+                    break
+                j += 1
+            if vals and not (is_list and j < len(stmts) and isinstance(stmts[j], ast.For)):
+                disp = ast.Dict(keys=keys, values=vals) if is_dict else ast.List(elts=vals, ctx=ast.Load())
+                new = ast.Assign(targets=[ast.Name(id=name, ctx=ast.Store())], value=disp)
+                ast.copy_location(new, s)
+                ast.fix_missing_locations(new)
+                out.append(new)
+                i = j
+                continue
+        out.append(s)
+        i += 1
+    return out
+
+
 def extend_to_augassign(stmts: list[ast.stmt]) -> list[ast.stmt]:
     """x.extend(<comprehension>)  ->  x += [<comprehension>]   (x a local name)"""
     class V(ast.NodeTransformer):
